@@ -586,6 +586,8 @@ class Frame:
                     if not (isinstance(pr, Obj) and pr.cls == "pair"):
                         self.bad(i, "map::insert of a non-pair")
                     kk = pr.f["first"]
+                    if isinstance(kk, list):
+                        kk = tuple(kk)          # a vector used as a map key
                     fresh = kk not in obj
                     if fresh:
                         obj[kk] = pr.f["second"]
@@ -638,6 +640,8 @@ class Frame:
                 if not (isinstance(b, ListIter) and isinstance(e, ListIter) and b.lst is e.lst and 0 <= b.pos <= e.pos <= len(b.lst)):
                     self.bad(i, "count over something else than one sequence")
                 return sum(1 for x in b.lst[b.pos:e.pos] if x == v)
+            if cn in ("boost::tuples::make_tuple", "boost::make_tuple", "std::make_tuple"):
+                return tuple(self.eval(a) for a in args)
             if cn == "std::make_pair" and len(args) == 2:
                 return pair(self.eval(args[0]), self.eval(args[1]))
             if cn in ("std::conj", "conj") and len(args) == 1:
